@@ -598,6 +598,15 @@ fn run_stream(id: &str, lines: &[String], out: &mut String) {
             "dropdown" => {
                 r_out_rx = None;
             }
+            "fiximport" => {
+                // the repair step is a public call like any other: applied to a store that is part of a stream it
+                // must leave the stream as it is
+                match w[1] {
+                    "p" => producer.fix_import(),
+                    "r" => relay.fix_import(),
+                    _ => receiver.fix_import(),
+                }
+            }
             "relaymode" => {}
             "mirroruniq" => {
                 // every node the producer holds is asked for again on both mirrors: a mirror that registered what it
@@ -680,6 +689,7 @@ fn run_stream_threads(id: &str, rest: &[String], lines: &[String], out: &mut Str
                 "xor" => regs.push(bdd.xor(reg(w[1], &regs), reg(w[2], &regs))),
                 "restrict" => regs.push(bdd.restrict(reg(w[1], &regs), Var(w[2].parse().unwrap()), w[3] == "1")),
                 "const" => regs.push(Bdd::constant(w[1] == "1")),
+                "fiximport" if w[1] == "p" => bdd.fix_import(),
                 _ => {}
             }
         }
